@@ -147,6 +147,11 @@ class ScriptAgent(Agent):
         for s in w.sends.get((w.k, self.id), ()):
             send(self.model, w, s, self.id)
         for op in w.act_ops.get((w.k, self.id), ()):
+            if op["op"] == "raise":
+                # (harness) an injected fault: this agent's act fails half-way
+                w.failed_acts = getattr(w, "failed_acts", [])
+                w.failed_acts.append((w.k, self.id, time))
+                raise RuntimeError("act of agent %d fails at %r" % (self.id, time))
             w.apply_op(self.model, op)
 
 
@@ -158,6 +163,22 @@ class BoxAgent(ScriptAgent):
         return 1 if self.state == "busy" else 0
 
 
+class BareAgent(ScriptAgent):
+    """an agent that carries no properties at all (a type listed without a `properties` section): it still has a state and counts"""
+
+    def initialize(self):
+        self.state = "idle"
+        self.model.world.created.append(self.id)
+        for ev in EVENT_NAMES:
+            self.register_event_handler(STATES, ev, self._on_event)
+
+    def set_property_value(self, name, value):
+        pass        # (the property script of the harness addresses ids, not types)
+
+    def set_property(self, name, data):
+        pass
+
+
 class Memo(Event):
     """application-defined event classes: an event is whatever IS-A Event / DelayedEvent"""
 
@@ -167,14 +188,17 @@ class Shipment(DelayedEvent):
 
 
 def send(model, w, s, sender_id):
-    data = {"uid": s["uid"]}
     sub = s["uid"] % 3 == 0          # every third event is an instance of an application-defined subclass
-    if s.get("delay") is None:
-        ev = (Memo if sub else Event)(s.get("name", "ping"), sender_id, s["to"], data=data)
-    else:
-        ev = (Shipment if sub else DelayedEvent)(s.get("name", "ping"), sender_id, s["to"], s["delay"], data=data)
-    model.enqueue_event(ev)
-    w.sent.append((w.k, s["uid"], s["to"], s.get("delay")))
+    # copies > 1: the sender sends the SAME message several times (equal name, sender, receiver and payload - two orders for the
+    # same article): they are separate events, each of them is handled
+    for _ in range(s.get("copies", 1)):
+        data = {"uid": s["uid"]}
+        if s.get("delay") is None:
+            ev = (Memo if sub else Event)(s.get("name", "ping"), sender_id, s["to"], data=data)
+        else:
+            ev = (Shipment if sub else DelayedEvent)(s.get("name", "ping"), sender_id, s["to"], s["delay"], data=data)
+        model.enqueue_event(ev)
+        w.sent.append((w.k, s["uid"], s["to"], s.get("delay")))
 
 
 class TeamAgent(ScriptAgent):
@@ -226,6 +250,7 @@ class ScriptModel(Model):
         for t in self.TYPES:
             cls = BoxAgent if t == "b" else ScriptAgent         # every agent of type "b" is container-like
             self.register_agent_factory(t, (lambda tt, cls_: (lambda agent_id, model, properties: cls_(agent_id, model, properties, tt)))(t, cls))
+        self.register_agent_factory("c", lambda agent_id, model, properties: BareAgent(agent_id, model, properties, "c"))
         self.register_agent_factory("team", lambda agent_id, model, properties: TeamAgent(agent_id, model, properties, "team"))
         self.register_agent_factory("cap", lambda agent_id, model, properties: CapAgent(agent_id, model, properties, "cap"))
         if isinstance(self.data_collector, LoggingCollector):
